@@ -18,7 +18,7 @@ META = {
     "note": "Trusted: Coq kernel/vm_compute with primitive floats; real-number axioms listed by Print Assumptions; the "
             "'same term, different NumOps instance' argument; hand transcription coq/C16/FilterDefs.v validated bit for bit on "
             "the generated cases only; memmove modelled as list shift. Float saturation of gen for extreme fc*ts is checked on a grid, not proved.",
-    "technique": "Rocq proof over R (list induction with explicit histories, nra, Coquelicot limits) + lpf/hpf regenerated from the headers by a translator and re-tied by conversion on every run + bit-exact primitive-float model vs C correspondence",
+    "technique": "Rocq proof over R (list induction with explicit histories, nra, Coquelicot limits) + lpf/hpf regenerated from the headers by a translator and re-tied by conversion on every run, a_tf_iter/a_tf_zero unrolled for all orders 0..3 x 0..3 and proved equal to the list model + bit-exact primitive-float model vs C correspondence",
 }
 
 H = vlib.VERIF / "harness" / "C16"
@@ -141,6 +141,9 @@ def run(ctx):
     # second tie: lpf/hpf are REGENERATED from the current headers by the translator and re-tied to the proved model
     ctx.translate_and_tie([(str(H / "rc_unit.c"), ["a_lpf_gen", "a_hpf_gen", "a_lpf_iter", "a_hpf_iter", "a_lpf_zero", "a_hpf_zero"])],
                           "GenRc", H / "TieRc.v")
+    # third tie: a_tf_iter / a_tf_zero UNROLLED for every pair of orders 0..3 x 0..3 (a_real_push_fore of math.c inlined, delay lines
+    # and coefficient vectors exactly sized) and proved equal to the list model for all contents
+    ctx.translate_and_tie([("src/tf.c", (H / "tie_names.txt").read_text().split())], "GenTf", H / "TieTf.v", extra_sources=["src/math.c"])
     ctx.assumptions += ["binary64 rounding is not part of the theorems; integer-valued cases are compared with an exact rational reference",
                         "C built with gcc -O2 -ffp-contract=off"]
     cbin = ctx.cc("drv", [H / "drv.c"], repo_srcs=["tf.c", "math.c", "a.c"], mode="num", extra=["-fsanitize=address"])
